@@ -93,6 +93,8 @@ def o_C01(ctx):
             v.append(([c.id], "no result: the harness process aborted or timed out on this case (%s)" % c.entry))
         if first(t, "x_accpanic") == "1":
             v.append(([c.id], "an accessor of an object handed to the visitor panics (%s)" % c.entry))
+        if first(t, "x_selfpanic") == "1":
+            v.append(([c.id], "self_visit of the successfully parsed object panics (%s%s)" % (c.entry, ", visitor breaks at #%d" % c.brk if c.brk >= 0 else "")))
         nev = first(t, "nev")
         if nev is not None and int(nev) > 3 * len(c.inp) + 1:
             v.append(([c.id], "%s callbacks for %d input bytes (bound 3*len+1)" % (nev, len(c.inp))))
